@@ -372,3 +372,11 @@ def cache_keys(ctx):
     between objects every attribute of self - that the cached value depends on through data or control flow."""
     from .common_cache import cache_keys as run
     run(ctx, [('keys', lambda q: q.startswith('HDKey.'))], 'HDKey methods')
+
+
+@PROP.obligation('C03.arg-binding')
+def arg_binding(ctx):
+    """Calls inside keys that pass two or more positional arguments: a variable passed positionally must not land on a parameter of another
+    name while the callee has a parameter of the variable's own name elsewhere (argument inserted / dropped / swapped)."""
+    from .common_argsel import arg_binding as run
+    run(ctx, ['keys'], 'a value meant as network / index ends up as the hardened flag (or the reverse): another child key is derived')
